@@ -273,6 +273,9 @@ func (s *Server) crashLocked() {
 	s.conns = map[int]*ConnState{}
 }
 
+// CrashLocked is Crash for callers that already hold the server lock (hooks).
+func (s *Server) CrashLocked() { s.crashLocked() }
+
 // Crash kills every connection now; queued-but-unexecuted transactions are dropped.
 func (s *Server) Crash() {
 	s.mu.Lock()
